@@ -505,31 +505,51 @@ class FixedWidthBinning(BinningBase):
     def is_regular(self, **kwargs) -> bool:
         return True
 
+    def _grid_index(self, value) -> int:
+        """Index of the grid bin containing the value (consistent with numpy_bins).
+
+        The edges are computed as `index * bin_width + shift` in floating point,
+        so the result of the division is corrected against these very edges.
+        """
+        index = int(np.floor((value - self._shift) / self._bin_width))
+        while index * self._bin_width + self._shift > value:
+            index -= 1
+        while (index + 1) * self._bin_width + self._shift <= value:
+            index += 1
+        return index
+
     def _force_bin_existence_single(self, value, includes_right_edge=None):
         if includes_right_edge is None:
             includes_right_edge = self.includes_right_edge
+        # The edges are double precision: compare the value as such (not in float32 / float16)
+        value = float(value)
 
         if self._bin_count == 0:
             self._times_min = int(np.floor((value - self._shift) / self.bin_width))
             if not self._align:
                 self._shift = value - self._times_min * self.bin_width
+            self._times_min = self._grid_index(value)
             self._bin_count = 1
             self._bins = None
             self._numpy_bins = None
             return ()
         else:
             add_left = add_right = 0
-            if value < self.numpy_bins[0]:
-                add_left = int(np.ceil((self.numpy_bins[0] - value) / self.bin_width))
+            if not np.isfinite(value):
+                return None
+            index = self._grid_index(value)
+            if index < self._times_min:
+                add_left = self._times_min - index
                 self._times_min -= add_left
                 self._bin_count += add_left
-            elif value >= self.numpy_bins[-1]:
-                add_right = (value - self.numpy_bins[-1]) / self.bin_width
-                add_right = int(np.ceil(add_right))
+            elif index >= self._times_min + self._bin_count:
+                if includes_right_edge and (
+                    index * self._bin_width + self._shift == value
+                ):
+                    # The value lies exactly on an edge that the last bin includes
+                    index -= 1
+                add_right = index + 1 - self._times_min - self._bin_count
                 self._bin_count += add_right
-                if self.last_edge == value and not includes_right_edge:
-                    add_right += 1
-                    self._bin_count += 1
             if add_left or add_right:
                 self._bins = None
                 self._numpy_bins = None
